@@ -71,3 +71,17 @@ Example C11_ledger_witness :
    (2 <=? Z.of_nat (length (c_subs s))) && existsb (fun x => 0 <? sa_spent x) (c_subs s) && existsb (fun x => 0 <? sa_wd x) (c_subs s)
    && existsb (fun x => 0 <? sa_dep x) (c_subs s) && existsb (fun x => 0 <? sa_lost x) (c_subs s)) = true.
 Proof. vm_compute. split; reflexivity. Qed.
+
+From Sge Require Import Gen.kernels Proofs.GenKernels.
+(* the ledger kernels of the model ARE the Go methods: K_AccountSummary_* are generated from x/subaccount/types/accsummary.go on every run
+   (Gen/kernels.v) and proved equal to the model's functions; a change of one of these methods breaks this theorem *)
+Theorem C11_kernels_generated : forall x a unlocked bank,
+  K_AccountSummary_Available (as_of x) = sub_available x /\
+  K_AccountSummary_Spend (as_of x) a = option_map as_of (sub_spend x a) /\
+  K_AccountSummary_Unspend (as_of x) a = option_map as_of (sub_unspend x a) /\
+  K_AccountSummary_AddLoss (as_of x) a = option_map as_of (sub_addloss x a) /\
+  K_AccountSummary_Withdraw (as_of x) a = option_map as_of (sub_withdraw x a) /\
+  K_AccountSummary_WithdrawableUnlockedBalance (as_of x) unlocked bank = Z.min (Z.min (sub_available x) (zmax0 (unlocked - sa_wd x))) bank /\
+  K_AccountSummary_WithdrawableBalance (as_of x) bank = Z.min (sub_available x) bank.
+Proof. intros. repeat split; first [apply gen_Spend|apply gen_Unspend|apply gen_AddLoss|apply gen_Withdraw|apply gen_WithdrawableUnlockedBalance]. Qed.
+Print Assumptions C11_kernels_generated.
